@@ -140,6 +140,8 @@ INT, BOOL, STR, REAL, NONE = TInt(), TBool(), TStr(), TReal(), TNone()
 ROW, FRAG, GAP = TRow(), TRow("frag"), TRow("gap")
 STRSEQ = TStrSeq()
 STRLIST = TStrList()
+# abstract bytes value: (kind, first, n) - see specs/fasta.py
+BYTES = TTuple([INT, INT, INT])
 
 
 class Val:
